@@ -2,6 +2,7 @@ CONSTANTS Streams <- Small2
   LenOf <- Lens
   ReadMax = 2048
   MaxReads = 3
+  Fails <- FewFail
   Cuts <- NoCuts
   D = 0
 INIT Init
